@@ -10,6 +10,7 @@ code=$?
 git -C /repo checkout -- .
 # rebuild against the restored tree so that no mutant binary is left behind
 (cd /verif/harness && CARGO_NET_OFFLINE=true cargo build --release --offline >/dev/null 2>&1)
+[ "$prop" = "C08" ] && (cd /verif/harness-serde && CARGO_NET_OFFLINE=true cargo build --release --offline >/dev/null 2>&1)
 tail -n 6 /verif/out/mutant_run.log
 echo "exit=$code"
 exit $code
